@@ -164,6 +164,9 @@ class NgramFilter(Filter):
             chars = t.chars
             if chars:
                 startchar = t.startchar
+                # An earlier filter may have changed the length of the text
+                # (e.g. lowercasing); never point past the source token
+                lastchar = t.endchar
             # Token positions don't mean much for N-grams,
             # so we'll leave the token's original position
             # untouched.
@@ -173,19 +176,20 @@ class NgramFilter(Filter):
                 if at == -1:
                     t.text = text[:size]
                     if chars:
-                        t.endchar = startchar + size
+                        t.endchar = min(startchar + size, lastchar)
                     yield t
                 elif at == 1:
                     t.text = text[0 - size:]
                     if chars:
-                        t.startchar = t.endchar - size
+                        t.startchar = max(t.endchar - size, startchar)
                     yield t
                 else:
                     for start in xrange(0, len(text) - size + 1):
                         t.text = text[start:start + size]
                         if chars:
-                            t.startchar = startchar + start
-                            t.endchar = startchar + start + size
+                            t.startchar = min(startchar + start, lastchar)
+                            t.endchar = min(startchar + start + size,
+                                            lastchar)
                         yield t
             else:
                 if at == -1:
@@ -193,7 +197,7 @@ class NgramFilter(Filter):
                     for size in xrange(self.min, limit + 1):
                         t.text = text[:size]
                         if chars:
-                            t.endchar = startchar + size
+                            t.endchar = min(startchar + size, lastchar)
                         yield t
 
                 elif at == 1:
@@ -203,7 +207,7 @@ class NgramFilter(Filter):
                     for i in xrange(start, len(text) - self.min + 1):
                         t.text = text[i:]
                         if chars:
-                            t.startchar = original_startchar + i
+                            t.startchar = min(original_startchar + i, lastchar)
                         yield t
                 else:
                     for start in xrange(0, len(text) - self.min + 1):
@@ -215,8 +219,8 @@ class NgramFilter(Filter):
                             t.text = text[start:end]
 
                             if chars:
-                                t.startchar = startchar + start
-                                t.endchar = startchar + end
+                                t.startchar = min(startchar + start, lastchar)
+                                t.endchar = min(startchar + end, lastchar)
 
                             yield t
 
